@@ -10,7 +10,7 @@ XmlPart.clone is checked by a direct oracle on the same histories (serialisation
 current tree; editing one does not show in the other).
 
 The table / row / cell half of C10 lives in another module; `run_half` returns the pieces for a combined harness/c10.py."""
-import sys, io, json
+import os, sys, io, json
 from pathlib import Path
 sys.path.insert(0, str(Path(__file__).resolve().parent))
 import common, pkglib
@@ -69,6 +69,23 @@ def make_histories(tier, rng):
                        dict(SVB), dict(op="swap"), dict(SVB), dict(op="reopen", r=1), dict(op="editobj", r=3)])
             hs.append([dict(st)] + pre + E + [dict(SVB), dict(op="editobj", r=rng.randrange(1 << 30)), dict(op="clone2"), dict(SVB), dict(op="reopen", r=1), dict(op="touch", r=5)])
             hs.append([dict(st)] + pre + [dict(op="clone2")] + E + [dict(op="clone2"), dict(op="swap"), dict(op="editobj", r=7), dict(SVB)])
+    # XML parts with comments / processing instructions / DOCTYPE outside the root element (package built with zipfile; parts set
+    # through the API), parsed or not when the clone is taken: the clone holds them, nothing masked
+    XMLS = ["content.xml", "styles.xml", "meta.xml", "settings.xml"]
+    small = sorted(S, key=os.path.getsize)
+    for base in small[:2]:
+        for buf in (False, True):
+            for dt in (False, True):
+                B = dict(op="buildopen", base=base, extra=[], dress=XMLS, doctype=dt, buf=buf)
+                hs.append([dict(B), dict(op="touch", name="styles.xml"), dict(op="touch", name="meta.xml"), dict(op="clone2"), dict(op="touch", name="styles.xml"),
+                           dict(op="edit", name="content.xml", how="par", arg="x"), dict(op="swap"), dict(op="touch", name="content.xml"), dict(SVB), dict(op="swap"), dict(SVB)])
+    for st in starts[:2]:
+        hs.append([dict(st)] + [dict(op="set", name=n, variant=5) for n in XMLS] + [dict(op="touch", name="content.xml"), dict(op="touch", name="meta.xml"), dict(op="clone2"),
+                  dict(op="touch", name="styles.xml"), dict(SVB), dict(op="swap"), dict(SVB)])
+    # clone of documents written by LibreOffice (their meta:generator is not odfdo's), opened by path, before and after reading meta.xml
+    for s in S[:: (3 if tier == "quick" else 1)]:
+        hs.append([dict(op="open", src=s, buf=False), dict(op="clone2"), dict(op="touch", name="meta.xml"), dict(op="swap"), dict(op="touch", name="meta.xml")])
+        hs.append([dict(op="copyopen", src=s), dict(op="touch", name="meta.xml"), dict(op="clone2"), dict(op="clone2"), dict(op="touch", name="meta.xml")])
     for st in starts:
         hs.append([dict(st), dict(op="edit", name="content.xml", how="par", arg="x"), dict(op="clone2"), dict(op="clone2"), dict(op="edit", name="meta.xml", how="title", arg="t"),
                    dict(op="swap"), dict(op="addfile", r=3), dict(op="swap"), dict(op="save", packaging="zip", target="buf", pretty=False)])
@@ -245,8 +262,9 @@ def run_half(tier, seed, replay=None, finish=False):
         PROP, "chk10", LAYER, make_histories, key_of, tier, seed, replay,
         trusted_base=pkglib.PKG_TRUSTED + ["copy.deepcopy produces disjoint object graphs (the model's pair state is a product)"],
         rule="twin histories: start (template / private copy of each sample opened by path = lazy / buffer-opened) + 0-5 ops over %s, clone (original kept as twin), then ops over %s where 'swap' switches between original and clone; edge stream: source file removed after cloning, clone after unsaved edit + del_part + set_part, folder-opened original, clone of a clone. One Coq evaluation per executed operation, each comparing both documents. XmlPart.clone by a direct oracle (unedited / edited part x content, styles, meta)" % (sorted(PRE), sorted(WEIGHTS)),
-        assumptions=["strict comparison of XML parts (C14N, generator masked)", "directory entries are not parts",
+        assumptions=["strict comparison of XML parts (C14N with comments + items outside the root element; generator masked in the model terms, NOT masked in the direct before / after / clone comparison made at every clone step)", "directory entries are not parts",
                      "saves of the clone go to fresh targets (overwriting the file a lazily loaded original still reads from is the user's action, not sharing)"],
+        extra_prefixes=("clone/",),
         nontrivial_kinds=("clone2", "edit", "set", "del", "addfile", "save", "touch", "get"),
         case_fn=pkglib.step_case10, proof_file="C10doc", post_hook=post_hook, finish=finish)
 
